@@ -17,7 +17,7 @@ use crate::check::context::parent::generic::GenericParent;
 use crate::check::context::{Context, LookupClass};
 use crate::check::name::string_name::StringName;
 use crate::check::name::true_name::TrueName;
-use crate::check::name::{Any, Empty, Name, Nullable, Substitute};
+use crate::check::name::{Any, Empty, Name, Substitute};
 use crate::check::result::{TypeErr, TypeResult};
 use crate::common::position::Position;
 
@@ -93,7 +93,8 @@ impl HasParent<&StringName> for Class {
             for (s_name, o_name) in self.name.generics.iter().zip(&other.generics) {
                 for s_name in &s_name.names {
                     // List[Int?] is not a List[Int]: a member that may be None needs an argument that admits None
-                    all_generic_super &= !s_name.is_nullable || o_name.is_nullable();
+                    all_generic_super &=
+                        !s_name.is_nullable || o_name.names.iter().any(|n| n.is_nullable);
                     all_generic_super &= ctx.class(s_name, pos)?.has_parent(o_name, ctx, pos)?;
                 }
             }
